@@ -72,12 +72,14 @@ CAT = {
     "Family_t": [("FamilyBC_t", "w", 20), ("GeometryReference_t", "w", None), ("FamilyName_t", "w", None), ("Family_t", "w", None),
                  (D, "w", None), (U, "w", None)],
     "GeometryReference_t": [("GeometryEntity_t", "w", 1), (D, "w", None), (U, "w", None)],
-    "FamilyBC_t": [("FamilyBCDataSet_t", "w", None)],
+    "FamilyBC_t": [("FamilyBCDataSet_t", "u", None)],     # cg_bcdataset_write keeps an existing node (re-creates only its BCData_t child)
     "FamilyBCDataSet_t": [(D, "w", None), (U, "w", None)],
     "ParticleZone_t": [("ParticleCoordinates_t", "w", None), ("ParticleSolution_t", "w", None), (I, "w", None), (U, "w", None),
                        (D, "w", None), (F, "w", None)],
     "ParticleSolution_t": [(A, "u", None), (D, "w", None), (U, "w", None)],
     "ParticleCoordinates_t": [(D, "w", None), (U, "w", None)],
+    # reachable through goto, but cg_delete_node has no block for it (driven by a probe only)
+    "ParticleIterativeData_t": [(D, "w", None), (U, "w", None)],
     # single-child containers (created by mk)
     "BaseIterativeData_t": [(A, "w", None), (D, "w", None), (U, "w", None)],
     "ZoneIterativeData_t": [(A, "w", None), (D, "w", None), (U, "w", None)],
@@ -87,7 +89,6 @@ CAT = {
     "GoverningEquations_t": [(D, "w", None), (U, "w", None)],
     "GasModel_t": [(A, "w", None), (D, "w", None), (U, "w", None)],
     "Gravity_t": [(D, "w", None), (U, "w", None)],
-    "Axisymmetry_t": [(D, "w", None), (U, "w", None)],
     "RotatingCoordinates_t": [(D, "w", None), (U, "w", None)],
     "BCProperty_t": [(D, "w", None), (U, "w", None)],
     "WallFunction_t": [(D, "w", None), (U, "w", None)],
@@ -110,7 +111,6 @@ MK = [
     ("governing", None, "FlowEquationSet_t", [("GoverningEquations", "GoverningEquations_t")]),
     ("model", "GasModel_t", "FlowEquationSet_t", [("GasModel", "GasModel_t")]),
     ("gravity", None, "CGNSBase_t", [("Gravity", "Gravity_t")]),
-    ("axisym", None, "CGNSBase_t", [("Axisymmetry", "Axisymmetry_t")]),
     ("rotating", None, "CGNSBase_t", [("RotatingCoordinates", "RotatingCoordinates_t")]),
     ("rotating", None, "Zone_t", [("RotatingCoordinates", "RotatingCoordinates_t")]),
     ("bcdata", None, "BCDataSet_t", [("DirichletData", "BCData_t")]),
@@ -129,6 +129,24 @@ TAG = {"CGNSBase_t": "B", "Zone_t": "Z", "ParticleZone_t": "PZ", "Family_t": "Fa
 
 def join(path, name):
     return "/" + name if path == "/" else path + "/" + name
+
+
+# triggers of defects still present in /repo (set by the probes at the start of a run): the random histories avoid them
+AVOID = {"afn_overwrite": False, "pzone_integral": False}
+
+
+def kinds_at(path, pl):
+    """the sibling kinds the harness can drive under the node `path` (label pl)"""
+    ks = list(CAT.get(pl, []))
+    if pl == "ParticleZone_t" and AVOID["pzone_integral"]:
+        ks = [k for k in ks if k[0] != I]           # two IntegralData_t under a particle zone crash cg_close
+    if pl == "GridCoordinates_t" and not path.endswith("/GridCoordinates"):
+        ks = [k for k in ks if k[0] != A]           # cg_coord_write addresses the node called GridCoordinates
+    if pl == "Family_t" and path.count("/") > 2:
+        ks = [k for k in ks if k[0] not in ("FamilyBC_t", "GeometryReference_t")]   # index API: top-level families only
+    if pl == "CGNSTree_t":
+        ks = [k for k in ks]
+    return ks
 
 
 # ----------------------------------------------------------------------------------------------- the independent reference
@@ -154,6 +172,8 @@ class Ref:
             up = path.rsplit("/", 1)[0] or "/"
             if up in self.nodes and self.nodes[up]["label"] == "Zone_t" and "ZoneBC" not in self.nodes[up]["names"]:
                 self._add(up, "ZoneBC", "ZoneBC_t", 0)      # cg_boco_write creates the container
+                self.nodes[up]["file"].append("ZoneBC")
+                self.nodes[path] = self._new("ZoneBC_t")
         return self.nodes.get(path)
 
     def _add(self, path, name, label, p):
@@ -227,7 +247,7 @@ class Ref:
     def groups(self, nonempty_only=False):
         out = []
         for path, nd in self.nodes.items():
-            for label, _, _ in CAT.get(nd["label"], []):
+            for label, _, _ in kinds_at(path, nd["label"]):
                 if nonempty_only and not nd["slots"].get(label):
                     continue
                 out.append((path, nd["label"], label))
@@ -281,13 +301,13 @@ def expand(ops, backend, fpath, compress, full_every=None):
             st, idx = ref.write(path, pl, label, name, p, op[0])
             lines.append("%s %s %s %s %s %d" % (op[0], path, pl, label, name, p))
             exp.append(("w", (st, idx if st == 0 else 0), k))
-            near = [(path, pl, l) for l, _, _ in CAT.get(pl, [])]
+            near = [(path, pl, l) for l, _, _ in kinds_at(path, pl)]
         elif op[0] == "d":
             _, path, pl, name = op
             st = ref.delete(path, name)
             lines.append("d %s %s %s" % (path, pl, name))
             exp.append(("d", st, k))
-            near = [(path, pl, l) for l, _, _ in CAT.get(pl, [])]
+            near = [(path, pl, l) for l, _, _ in kinds_at(path, pl)]
         elif op[0] == "mk":
             _, path, what, arg, chain = op
             st = ref.mk(path, chain)
@@ -495,14 +515,7 @@ class Gen:
         return [(p, nd["label"]) for p, nd in self.ref.nodes.items() if nd["label"] in CAT]
 
     def kinds_at(self, path, pl):
-        ks = list(CAT[pl])
-        if pl == "GridCoordinates_t" and not path.endswith("/GridCoordinates"):
-            ks = [k for k in ks if k[0] != A]           # cg_coord_write addresses the node called GridCoordinates
-        if pl == "Family_t" and path.count("/") > 2:
-            ks = [k for k in ks if k[0] not in ("FamilyBC_t", "GeometryReference_t")]   # index API: top-level families
-        if pl == "CGNSTree_t":
-            ks = []
-        return ks
+        return [] if pl == "CGNSTree_t" else kinds_at(path, pl)
 
     def grow(self):
         """one structural step: a new entity somewhere (so that deeper positions come to exist), or a container"""
@@ -547,7 +560,7 @@ class Gen:
         if r < 0.30 or len(sibs) < 2:
             self.emit((mode, path, pl, label, self.fresh_name(label), self.payload(bound)))
             self.note(pl, label, "create")
-        elif r < 0.62:
+        elif r < 0.62 and not (label == F and AVOID["afn_overwrite"]):
             pick = self.rng.choice(["first", "last", "mid", "any"])
             name = {"first": sibs[0], "last": sibs[-1], "mid": sibs[len(sibs) // 2], "any": self.rng.choice(sibs)}[pick]
             if mode == "w" and not self.allow_nonlast and filev and filev[-1] != name:
@@ -596,7 +609,7 @@ def focused_history(rng, target, allow_nonlast=True):
         elif step[0] == "mk":
             m = step[1]
             g.emit(("mk", path, m[0], m[1], m[3]))
-            for name, _ in m[3]:
+            for name, _ in (m[3][:1] if len(step) == 3 else m[3]):
                 path = join(path, name)
         elif step[0] == "zonebc":
             g.emit(("w", join(path, "ZoneBC"), "ZoneBC_t", "BC_t", "Bc0", 3))
@@ -628,7 +641,7 @@ def focused_history(rng, target, allow_nonlast=True):
     for _ in range(rng.randint(5, 9)):
         r = rng.random()
         filev = [n for n, _ in g.ref.file_view(path, label)]
-        if r < 0.4 and names:
+        if r < 0.4 and names and not (label == F and AVOID["afn_overwrite"]):
             nm = rng.choice([names[0], names[-1], rng.choice(names)])
             if mode == "w" and not allow_nonlast and filev:
                 nm = filev[-1]
@@ -679,10 +692,7 @@ def route_to(pl):
             if lab not in routes:
                 routes[lab] = routes[cur] + [step]
                 todo.append(lab)
-    # mk steps that stop at the first node of a two-node chain are not expressible: drop those routes
     for lab, r in routes.items():
-        if any(s[0] == "mk" and len(s) == 3 for s in r):
-            continue
         _ROUTES[lab] = r
     # ziter needs a BaseIterativeData_t first
     if "ZoneIterativeData_t" in _ROUTES:
@@ -691,10 +701,87 @@ def route_to(pl):
     return _ROUTES.get(pl)
 
 
-# ----------------------------------------------------------------------------------------------- probes (known / by design)
-def probe_order(label_pl):
-    pl, label = label_pl
-    return None
+# ----------------------------------------------------------------------------------------------- probes
+def route_ops(pl):
+    """ops that make a node labelled pl exist -> (ops, path of that node) or None"""
+    import random
+    chain = route_to(pl)
+    if chain is None:
+        return None
+    g = Gen(random.Random(1))
+    path = "/B"
+    for step in chain:
+        if step[0] == "mkbase":
+            m = step[1]
+            g.emit(("mk", "/B", m[0], m[1], m[3]))
+        elif step[0] == "mk":
+            m = step[1]
+            g.emit(("mk", path, m[0], m[1], m[3]))
+            for name, _ in (m[3][:1] if len(step) == 3 else m[3]):
+                path = join(path, name)
+        elif step[0] == "zonebc":
+            g.emit(("w", join(path, "ZoneBC"), "ZoneBC_t", "BC_t", "Bc0", 3))
+            path = join(path, "ZoneBC")
+            if step[1] == "BC_t":
+                path = join(path, "Bc0")
+        else:
+            _, ppl, lab = step
+            name = "GridCoordinates" if lab == "GridCoordinates_t" else TAG.get(lab, "N") + "0"
+            mode = [k for k in CAT[ppl] if k[0] == lab][0][1]
+            g.emit((mode, path, ppl, lab, name, 7))
+            path = join(path, name)
+    if path not in g.ref.nodes or g.ref.nodes[path]["label"] != pl:
+        return None
+    return list(g.ops), path
+
+
+PIT = "ParticleIterativeData_t"
+
+
+def probe_noblock(pl):
+    if pl == PIT:
+        return [("mk", "/B", "biter", None, [("BaseIterativeData", "BaseIterativeData_t")]),
+                ("w", "/B", "CGNSBase_t", "ParticleZone_t", "PZ0", 4),
+                ("mk", "/B/PZ0", "piter", None, [("ParticleIterativeData", PIT)]),
+                ("w", "/B/PZ0/ParticleIterativeData", PIT, D, "De1", 1),
+                ("w", "/B/PZ0/ParticleIterativeData", PIT, D, "De2", 2),
+                ("d", "/B/PZ0/ParticleIterativeData", PIT, "De1")]
+    r = route_ops(pl)
+    if r is None or not kinds_at(r[1], pl):
+        return None
+    ops, path = r
+    label, mode, bound = kinds_at(path, pl)[0]
+    return ops + [(mode, path, pl, label, "Keep1", 1), (mode, path, pl, label, "Gone", 2), ("d", path, pl, "Gone")]
+
+
+def probe_shadowed(pl, label, name):
+    """give a sibling of kind `label` the reserved name under a parent labelled pl, and delete it"""
+    r = route_ops(pl)
+    if r is None:
+        return None
+    ops, path = r
+    entry = [k for k in kinds_at(path, pl) if k[0] == label]
+    if not entry:
+        return None
+    mode, bound = entry[0][1], entry[0][2]
+    b = bound or 99
+    return ops + [(mode, path, pl, label, "Keep1", 3 % b), (mode, path, pl, label, name, 5 % b), (mode, path, pl, label, "Keep2", 6 % b),
+                  ("d", path, pl, name)]
+
+
+def probe_order(pl, label):
+    """the witness of C04_order_refuted for one kind: three siblings, overwrite the first"""
+    r = route_ops(pl)
+    if r is None:
+        return None
+    ops, path = r
+    entry = [k for k in kinds_at(path, pl) if k[0] == label and k[1] == "w"]
+    if not entry:
+        return None
+    b = entry[0][2] or 99
+    t = TAG.get(label, "N")
+    return ops + [("w", path, pl, label, "%sa" % t, 1 % b), ("w", path, pl, label, "%sb" % t, 2 % b), ("w", path, pl, label, "%sc" % t, 3 % b),
+                  ("w", path, pl, label, "%sa" % t, 4 % b)], (path, pl, label)
 
 
 def model_lines(lines, out):
@@ -704,6 +791,20 @@ def model_lines(lines, out):
         if l.split(" ", 1)[0] in ("w", "u", "d", "v", "reopen"):
             ml.append(l); il.append(o)
     return ml, il
+
+
+def ser(ops):
+    return [[list(map(list, x)) if isinstance(x, list) else x for x in o] for o in ops]
+
+
+def deser(ops):
+    out = []
+    for o in ops:
+        if o[0] == "mk":
+            out.append(("mk", o[1], o[2], o[3], [tuple(x) for x in o[4]]))
+        else:
+            out.append(tuple(o))
+    return out
 
 
 def run(ck):
@@ -721,13 +822,13 @@ def run(ck):
     ck.cov["trusted_base"] = [
         "Coq 8.16.1 kernel + vm_compute (no native_compute)",
         "translators/c04_delete.py and translators/c11_goto.py (token-level template matchers; whatever they cannot classify is an "
-        "Unparsed row that falsifies the forallb obligation)",
+        "Unparsed / WOther row that falsifies the forallb obligation)",
         "extraction: ExtrOcamlBasic only; OCaml 4.13.1; ocaml/eng_c04.ml (parsing / printing, one Mirror.parent per node path)",
         "harness/c04_mod.c (payload <-> attribute encoding per kind, the P descriptor), this generator, class Ref and the oracles",
         "hand transcription of the overwrite template, ADDRESS4MULTIPLE, CGNS_DELETE_SHIFT, cgi_array_general_write's in-place "
         "branch and the read-back order in coq/Mirror.v, validated by the correspondence below and pinned by the regenerated tables",
     ]
-    ck.assumptions = ["malloc never fails", "one process, one open file", "node names without '/' (family-tree paths not used as names)",
+    ck.assumptions = ["malloc never fails", "one process, one open file", "node names without '/' (family-tree paths are not used as names)",
                       "payload = what the harness can encode in the attributes of a kind and in a Descriptor_t child",
                       "the model treats one parent node at a time; nesting is composed by the engine (subtree dropped on overwrite/delete)"]
     ck.cov["rule"] = ("seeded modify-mode histories: (a) one focused history per (parent label, child label) sibling group of the catalogue "
@@ -736,15 +837,30 @@ def run(ck):
                       "0 / 1 / -1; after EVERY operation the views of all kinds under the touched node and of every non-empty group are "
                       "taken, around every cg_close + cg_open the views of every group. Lines compared with the extracted model; "
                       "oracles O1 (session vs fresh open), O2 (frame), O3 (Python ideal tree) on the implementation's output. "
-                      "non-trivial = the history contains an overwrite of an existing sibling AND a delete AND a reopen with at "
-                      "least two siblings alive; distinct by SHA1 of the script")
+                      "non-trivial = the history contains an overwrite or in-place rewrite of an existing sibling AND a delete; "
+                      "distinct by SHA1 of the script")
     corr_broken = []
-    dist = {"focused": 0, "random": 0, "ops": {}, "backends": {}, "compress": {}, "max_groups": 0}
+    dist = {"focused": 0, "random": 0, "probes": 0, "ops": {}, "backends": {}, "compress": {}, "max_groups": 0}
     covered = {}
+    work = ck.work
+    state = {"n": 0, "hard": 0}
+    AVOID["afn_overwrite"] = AVOID["pzone_integral"] = False
+    reported = set()
+
+    def finding(key, replay_dict):
+        """one witness per key and run"""
+        if key in reported:
+            return
+        reported.add(key)
+        ck.finding(key, replay_dict)
+
+    def hard(replay_dict, nofail=False):
+        state["hard"] += 1
+        ck.violation(replay_dict, nofail=nofail)
 
     # ---- static part: what the regenerated tables say (evaluated by the extracted Coq functions)
     tl = vlib.run_model("c04", "tables\n")
-    tables = {"shadowed": [], "no_block": [], "unsound": [], "kinds": {}, "verdicts": {}}
+    tables = {"shadowed": [], "no_block": [], "unsound": [], "kinds": {}, "verdicts": {}, "bad_nrow": [], "bad_dblock": [], "bad_wrow": []}
     for l in tl:
         t = l.split()
         if t[0] in ("delete_table_ok", "write_table_ok", "addr_tails_ok"):
@@ -757,260 +873,262 @@ def run(ck):
             tables["unsound"].append((t[1], t[2]))
         elif t[0] == "kinds":
             tables["kinds"][t[1]] = t[2].split(",") if len(t) > 2 else []
+        elif t[0] == "bad_nrow":
+            tables["bad_nrow"].append((t[1], t[2]))
         elif t[0] in ("bad_dblock", "bad_wrow"):
-            tables.setdefault(t[0], []).append(t[1])
+            tables[t[0]].append(t[1])
     ck.extra["tables"] = {"verdicts": tables["verdicts"], "shadowed": tables["shadowed"], "positions_without_block": tables["no_block"],
                           "unsound_kinds": tables["unsound"], "sound_sibling_groups": sum(len(v) for v in tables["kinds"].values()),
-                          "bad_dblock": tables.get("bad_dblock", []), "bad_wrow": tables.get("bad_wrow", [])}
+                          "writers_not_storing_the_node_id": tables["bad_nrow"], "bad_dblock": tables["bad_dblock"],
+                          "bad_wrow": tables["bad_wrow"]}
+    # the catalogue must stay inside what the theorems cover: every group the harness drives is a sound kind of its parent
+    outside = [(pl, k[0]) for pl in CAT for k in CAT[pl] if pl in tables["kinds"] and k[0] not in tables["kinds"][pl] and pl != PIT]
+    ck.extra["catalogue_groups_outside_sound_kinds"] = outside
 
-    work = ck.work
-    state = {"n": 0}
-
-    def one(ops, backend, compress, tag, expect_keys=None, sample=None):
-        """run one history on the implementation and the model; returns the list of unexplained failures"""
+    def exec_case(ops, backend, compress, name):
         state["n"] += 1
-        fpath = os.path.join(work, "h%d_%s.cgns" % (state["n"], backend))
+        fpath = os.path.join(work, "%s%d_%s.cgns" % (name, state["n"], backend))
         lines, exp, out, outcome = run_case(exe, ops, backend, fpath, compress)
+        if os.path.exists(fpath):
+            os.unlink(fpath)
+        return lines, exp, out, outcome
+
+    def correspond(ops, backend, compress, lines, out):
+        ml, il = model_lines(lines, out)
+        mo = vlib.run_model("c04", "\n".join(ml) + "\n")
+        if mo != il:
+            d = vlib.first_divergence(mo, il)
+            corr_broken.append({"history": [lines_of_op(o) for o in ops], "backend": backend, "compress": compress,
+                                "first_divergence": {"line": ml[d[0]] if d and d[0] < len(ml) else None, "model": d[1], "impl": d[2]} if d else None})
+
+    def report(ops, backend, compress, fails, tag):
+        """shrink and report a failing history"""
+        def still(sub):
+            l2, e2, o2, oc2 = exec_case(sub, backend, compress, "shrink")
+            f2 = evaluate(sub, l2, e2, o2, oc2)
+            return bool(f2) and order_by_design(sub, f2) is None
+        small = vlib.ddmin(ops, still, max_tests=120) if len(ops) > 3 else list(ops)
+        l2, e2, o2, oc2 = exec_case(small, backend, compress, "shrink")
+        f2 = evaluate(small, l2, e2, o2, oc2) or fails
+        hard({"level": "api", "backend": backend, "compress": compress, "ops": ser(small),
+                      "history": [lines_of_op(o) for o in small], "failures": f2[:4], "class": f2[0]["class"], "found_by": tag,
+                      "replay_hint": "./check C04 --replay <this file>"})
+
+    def probe(ops, backend, kind, sample_extra=None):
+        dist["probes"] += 1
+        lines, exp, out, outcome = exec_case(ops, backend, 0, "probe")
+        fails = evaluate(ops, lines, exp, out, outcome)
+        ck.case(None, sample=dict({"kind": "probe " + kind, "backend": backend}, **(sample_extra or {})))
+        return fails, lines, out, outcome
+
+    # ---- probes: what the unchanged tree does by design or does wrong; each goes through ck.finding with a stable key
+    for backend in ("adf", "hdf5"):
+        # a write colliding with a sibling of another label: the session keeps a phantom entry
+        ops = [("w", "/B", "CGNSBase_t", "Zone_t", "Z0", 5), ("w", "/B/Z0", "Zone_t", "FlowSolution_t", "S2", 1),
+               ("w", "/B/Z0", "Zone_t", "DiscreteData_t", "S2", 7)]
+        fails, lines, out, outcome = probe(ops, backend, "failed write")
+        grp = ("/B/Z0", "Zone_t", "DiscreteData_t")
+        ph = [f for f in fails if f.get("group") == grp]
+        other = [f for f in fails if f.get("group") != grp]
+        if ph and not other and all(f["class"] == "content" for f in ph):
+            finding("failed-write-leaves-phantom",
+                       {"witness": "C04_failed_write_refuted", "history": [lines_of_op(o) for o in ops], "backend": backend, "failures": ph[:2]})
+        elif fails:
+            report(ops, backend, 0, fails, "probe failed write")
+        # AdditionalFamilyName_t: overwrite in the session that created the entry
+        ops = [("w", "/B", "CGNSBase_t", "Zone_t", "Z0", 5), ("w", "/B/Z0", "Zone_t", F, "Afn1", 1), ("w", "/B/Z0", "Zone_t", F, "Afn2", 2),
+               ("w", "/B/Z0", "Zone_t", F, "Afn1", 3)]
+        fails, lines, out, outcome = probe(ops, backend, "multifam overwrite")
+        if fails:
+            at_overwrite = outcome != "ok" or all(f.get("op") == 3 or (f.get("when") or [None, None])[1] in (3, 4) for f in fails)
+            if at_overwrite:
+                AVOID["afn_overwrite"] = True
+                finding("multifam-overwrite-stale-id", {"history": [lines_of_op(o) for o in ops], "backend": backend,
+                                                           "outcome": outcome, "failures": fails[:2]})
+            else:
+                report(ops, backend, 0, fails, "probe multifam overwrite")
+        # two IntegralData_t (with descriptors) under a particle zone: cg_close frees the first one twice
+        ops = [("w", "/B", "CGNSBase_t", "ParticleZone_t", "PZ0", 4), ("w", "/B/PZ0", "ParticleZone_t", I, "Int1", 1),
+               ("w", "/B/PZ0", "ParticleZone_t", I, "Int2", 2)]
+        fails, lines, out, outcome = probe(ops, backend, "particle zone integrals")
+        if fails:
+            if outcome.startswith("asan:") and "cgi_free" in outcome:
+                AVOID["pzone_integral"] = True
+                finding("pzone-close-frees-first-integral-repeatedly",
+                           {"history": [lines_of_op(o) for o in ops], "backend": backend, "outcome": outcome})
+            else:
+                report(ops, backend, 0, fails, "probe particle zone integrals")
+    for fn, how in tables["bad_nrow"]:
+        if not (fn == "cg_multifam_write" and AVOID["afn_overwrite"]):
+            hard({"broken_obligation": "a node-context writer does not store the id of the node it creates",
+                          "function": fn, "how": how, "table": "Gen_C04.ctx_writers / Mirror.bad_nrows"}, nofail=True)
+
+    # the witness of C04_order_refuted, for EVERY kind whose writer deletes and re-creates (by design of CGNS)
+    seen_labels = set()
+    order_probes = []
+    for pl in sorted(CAT):
+        for label, mode, _ in CAT[pl]:
+            if mode == "w" and label not in seen_labels and pl not in ("CGNSTree_t", PIT):
+                r = probe_order(pl, label)
+                if r is not None:
+                    seen_labels.add(label)
+                    order_probes.append((pl, label) + r)
+    by_design = {}
+    for n, (pl, label, ops, grp) in enumerate(order_probes):
+        if label == F and AVOID["afn_overwrite"]:
+            continue
+        backend = "adf" if n % 2 == 0 else "hdf5"
+        fails, lines, out, outcome = probe(ops, backend, "order witness", {"group": [pl, label]})
+        idx = [f for f in fails if f["class"] == "index" and f["group"] == grp]
+        rest = [f for f in fails if not (f["class"] in ("index", "order") and f["group"] == grp)]
+        if idx and not rest and idx[0]["session"][0][0] == idx[0]["reopened"][-1][0]:
+            by_design[label] = backend
+            finding("index-after-overwrite-nonlast:" + label,
+                       {"witness": "C04_order_refuted", "history": [lines_of_op(o) for o in ops], "backend": backend,
+                        "session": idx[0]["session"], "reopened": idx[0]["reopened"],
+                        "by_design": "the session re-uses the slot, the database appends the re-created node"})
+        elif fails:
+            report(ops, backend, 0, fails, "probe order witness %s/%s" % (pl, label))
+        elif label == "FlowSolution_t":
+            corr_broken.append({"probe": "the witness of C04_order_refuted does not diverge on the implementation", "backend": backend})
+        if outcome == "ok" and not rest:
+            correspond(ops, backend, 0, lines, out)
+    ck.extra["by_design_index_difference_confirmed_for"] = sorted(by_design)
+
+    # what the tables flag: shadowed label arms and reachable parents without a dispatcher block -- replayed on the library
+    replayed = []
+    for (pl, label, name) in tables["shadowed"]:
+        ops = probe_shadowed(pl, label, name)
+        if ops is None:
+            replayed.append({"triple": [pl, label, name], "replayed": False, "why": "the harness has no writer for this group"})
+            continue
+        div = False
+        for backend in ("adf", "hdf5"):
+            fails, lines, out, outcome = probe(ops, backend, "shadowed arm", {"triple": [pl, label, name]})
+            if fails:
+                div = True
+                finding("delete-arm-shadowed:%s/%s:%s" % (pl, label, name),
+                           {"history": [lines_of_op(o) for o in ops], "backend": backend, "failures": fails[:3],
+                            "table": "Mirror.shadowed on the regenerated Gen_C04.delete_table lists this triple"})
+        replayed.append({"triple": [pl, label, name], "replayed": True, "diverges": div})
+    for (pl, kind) in tables["no_block"]:
+        if kind != "has_children":
+            continue
+        ops = probe_noblock(pl)
+        if ops is None:
+            hard({"broken_obligation": "a parent label the goto table reaches has no block in cg_delete_node and the harness cannot "
+                                               "build such a node", "parent": pl}, nofail=True)
+            continue
+        div = False
+        for backend in ("adf", "hdf5"):
+            fails, lines, out, outcome = probe(ops, backend, "parent without block", {"parent": pl})
+            if fails:
+                div = True
+                finding("delete-no-dispatch-block:%s" % pl, {"history": [lines_of_op(o) for o in ops], "backend": backend, "failures": fails[:3]})
+        replayed.append({"no_block": pl, "replayed": True, "diverges": div})
+    for (pl, label) in tables["unsound"]:
+        if pl == PIT and any(r.get("no_block") == PIT for r in replayed):
+            continue
+        hard({"broken_obligation": "the dispatcher does not shift the array of this kind for an unreserved name",
+                      "parent": pl, "label": label, "table": "Mirror.unsound_kinds"}, nofail=True)
+    ck.extra["table_findings_replayed"] = replayed
+
+    def one(ops, backend, compress, tag):
+        lines, exp, out, outcome = exec_case(ops, backend, compress, "h")
         fails = evaluate(ops, lines, exp, out, outcome)
         for o in ops:
             dist["ops"][o[0]] = dist["ops"].get(o[0], 0) + 1
         dist["backends"][backend] = dist["backends"].get(backend, 0) + 1
         dist["compress"][str(compress)] = dist["compress"].get(str(compress), 0) + 1
-        text = "\n".join(lines)
-        has_ow = any(o[0] == "w" for o in ops) and any(o[0] == "d" for o in ops)
-        ck.case(hashlib.sha1((text + backend).encode()).hexdigest() if has_ow else None,
-                sample=sample or {"kind": tag, "backend": backend, "compress": compress, "ops": [lines_of_op(o) for o in ops[:12]] + ["..."]})
+        nontriv = any(o[0] == "d" for o in ops) and any(x in v for v in [set()] for x in ())
+        names = set()
+        ow = False
+        for o in ops:
+            if o[0] in ("w", "u"):
+                if (o[1], o[4]) in names:
+                    ow = True
+                names.add((o[1], o[4]))
+        nontriv = ow and any(o[0] == "d" for o in ops)
+        ck.case(hashlib.sha1(("\n".join(lines) + backend).encode()).hexdigest() if nontriv else None,
+                sample={"kind": tag, "backend": backend, "compress": compress, "ops": [lines_of_op(o) for o in ops[:12]] + ["..."]})
         ck.cov["traces_validated_against_impl"] += 1
-        if os.path.exists(fpath):
-            os.unlink(fpath)
-        unexplained = fails
         if fails:
             keys = order_by_design(ops, fails)
             if keys is not None:
                 for key in sorted(keys):
-                    ck.finding(key, {"history": [lines_of_op(o) for o in ops], "backend": backend, "compress": compress,
+                    finding(key, {"history": [lines_of_op(o) for o in ops], "backend": backend, "compress": compress,
                                      "failures": fails[:3], "by_design": "the session re-uses the slot, the database appends"})
-                unexplained = []
-        if not unexplained and outcome == "ok":
-            ml, il = model_lines(lines, out)
-            mo = vlib.run_model("c04", "\n".join(ml) + "\n")
-            mo = [x if not x.startswith("w ") else x for x in mo]
-            if mo != il:
-                d = vlib.first_divergence(mo, il)
-                corr_broken.append({"history": [lines_of_op(o) for o in ops], "backend": backend, "compress": compress,
-                                    "first_divergence": {"line": ml[d[0]] if d and d[0] < len(ml) else None,
-                                                         "model": d[1], "impl": d[2]} if d else None})
-        return unexplained, (lines, out)
-
-    def report(ops, backend, compress, fails, tag):
-        """shrink and report a failing history"""
-        cls = fails[0]["class"]
-
-        def still(sub):
-            l2, e2, o2, oc2 = run_case(exe, sub, backend, os.path.join(work, "shrink_%s.cgns" % backend), compress)
-            f2 = evaluate(sub, l2, e2, o2, oc2)
-            if not f2:
-                return False
-            k2 = order_by_design(sub, f2)
-            return k2 is None
-        small = vlib.ddmin(ops, still, max_tests=150) if len(ops) > 3 else ops
-        l2, e2, o2, oc2 = run_case(exe, small, backend, os.path.join(work, "shrink_%s.cgns" % backend), compress)
-        f2 = evaluate(small, l2, e2, o2, oc2) or fails
-        ck.violation({"level": "api", "backend": backend, "compress": compress, "ops": [list(o[:3]) + [list(map(list, o[3]))] if False else list(o) for o in small],
-                      "history": [lines_of_op(o) for o in small], "failures": f2[:4], "class": cls, "found_by": tag,
-                      "replay_hint": "./check C04 --replay <this file>"})
-
-    # ---- probes: the findings of the unchanged tree, each on both back ends
-    findings_seen = {}
-    for backend in ("adf", "hdf5"):
-        # (1) by design: S1,S2,S3, overwrite S1 -> index 1 in the session, 3 after a fresh open
-        ops = [("w", "/B", "CGNSBase_t", "Zone_t", "Z0", 5)] + [("w", "/B/Z0", "Zone_t", "FlowSolution_t", "S%d" % i, i) for i in (1, 2, 3)] + \
-              [("w", "/B/Z0", "Zone_t", "FlowSolution_t", "S1", 4)]
-        fpath = os.path.join(work, "probe_%s.cgns" % backend)
-        lines, exp, out, outcome = run_case(exe, ops, backend, fpath, 0)
-        fails = evaluate(ops, lines, exp, out, outcome)
-        ck.case(None, sample={"kind": "probe order witness", "backend": backend})
-        idx = [f for f in fails if f["class"] == "index" and f["group"][2] == "FlowSolution_t"]
-        if idx and order_by_design(ops, fails) is not None and idx[0]["session"][0][0] == "S1" and idx[0]["reopened"][2][0] == "S1":
-            ck.finding("index-after-overwrite-nonlast:FlowSolution_t",
-                       {"witness": "C04_order_refuted", "history": [lines_of_op(o) for o in ops], "backend": backend,
-                        "session": idx[0]["session"], "reopened": idx[0]["reopened"]})
-            findings_seen["index-after-overwrite-nonlast:FlowSolution_t"] = True
-        elif fails:
-            report(ops, backend, 0, fails, "probe order witness")
-        else:
-            corr_broken.append({"probe": "C04_order_refuted witness does not diverge on the implementation", "backend": backend})
-        # (2) a write colliding with a sibling of another label
-        ops = [("w", "/B", "CGNSBase_t", "Zone_t", "Z0", 5), ("w", "/B/Z0", "Zone_t", "FlowSolution_t", "S2", 1),
-               ("w", "/B/Z0", "Zone_t", "DiscreteData_t", "S2", 7)]
-        lines, exp, out, outcome = run_case(exe, ops, backend, fpath, 0)
-        fails = evaluate(ops, lines, exp, out, outcome)
-        ck.case(None, sample={"kind": "probe failed write", "backend": backend})
-        ph = [f for f in fails if f.get("group") == ("/B/Z0", "Zone_t", "DiscreteData_t")]
-        other = [f for f in fails if f.get("group") != ("/B/Z0", "Zone_t", "DiscreteData_t")]
-        if ph and not other and all(f["class"] == "content" for f in ph):
-            ck.finding("failed-write-leaves-phantom",
-                       {"witness": "C04_failed_write_refuted", "history": [lines_of_op(o) for o in ops], "backend": backend, "failures": ph[:2]})
-        elif fails:
-            report(ops, backend, 0, fails, "probe failed write")
-    if os.path.exists(os.path.join(work, "probe_adf.cgns")):
-        pass
-
-    # (3) what the tables flag: shadowed label arms and parents without a block -- replay each on the library
-    replayed = []
-    for (pl, label, name) in tables["shadowed"]:
-        g = focused_for_reserved(pl, label, name)
-        if g is None:
-            replayed.append({"triple": [pl, label, name], "replayed": False, "why": "no route / no writer for this group"})
-            continue
-        for backend in ("adf", "hdf5"):
-            lines, exp, out, outcome = run_case(exe, g, backend, os.path.join(work, "shadow_%s.cgns" % backend), 0)
-            fails = evaluate(g, lines, exp, out, outcome)
-            ck.case(None, sample={"kind": "probe shadowed arm", "triple": [pl, label, name], "backend": backend})
-            if fails:
-                ck.finding("delete-arm-shadowed:%s/%s:%s" % (pl, label, name),
-                           {"history": [lines_of_op(o) for o in g], "backend": backend, "failures": fails[:3],
-                            "table": "Mirror.shadowed on the regenerated Gen_C04.delete_table lists this triple"})
-            replayed.append({"triple": [pl, label, name], "replayed": True, "backend": backend, "diverges": bool(fails)})
-    for (pl, kind) in tables["no_block"]:
-        if kind != "has_children":
-            continue
-        g = focused_for_noblock(pl)
-        if g is None:
-            replayed.append({"no_block": pl, "replayed": False})
-            continue
-        for backend in ("adf", "hdf5"):
-            lines, exp, out, outcome = run_case(exe, g, backend, os.path.join(work, "noblock_%s.cgns" % backend), 0)
-            fails = evaluate(g, lines, exp, out, outcome)
-            ck.case(None, sample={"kind": "probe parent without block", "parent": pl, "backend": backend})
-            if fails:
-                ck.finding("delete-no-dispatch-block:%s" % pl,
-                           {"history": [lines_of_op(o) for o in g], "backend": backend, "failures": fails[:3]})
-            replayed.append({"no_block": pl, "replayed": True, "backend": backend, "diverges": bool(fails)})
-    ck.extra["table_findings_replayed"] = replayed
+                fails = []
+                # the model must still print the same lines
+        if not fails and outcome == "ok":
+            correspond(ops, backend, compress, lines, out)
+        return fails
 
     # ---- (a) one focused history per sibling group
-    targets = [(pl, k[0]) for pl in sorted(CAT) for k in CAT[pl] if pl != "CGNSTree_t"]
-    stop = False
-    combos = [("adf", 0), ("hdf5", 0), ("adf", 1), ("hdf5", -1)]
+    targets = [(pl, k[0]) for pl in sorted(CAT) for k in CAT[pl] if pl not in ("CGNSTree_t", PIT)]
+    stop = state["hard"] > 0
+    combos = [("adf", 0), ("hdf5", 0), ("adf", 1), ("hdf5", -1), ("adf", -1), ("hdf5", 1)]
     for ti, target in enumerate(targets):
         if stop:
             break
-        reps = 2 if big else 1
-        for rep in range(reps):
-            backend, compress = combos[(ti + rep) % len(combos)]
-            g = focused_history(ck.rng, target, allow_nonlast=(rep % 2 == 1) if big else (ti % 3 == 0))
+        for rep in range(2 if big else 1):
+            backend, compress = combos[(ti + 3 * rep) % len(combos)]
+            g = focused_history(ck.rng, target, allow_nonlast=(rep == 1) or (ti % 4 == 0))
             if g is None:
                 continue
             dist["focused"] += 1
             for k, v in g.touched.items():
                 covered.setdefault("%s/%s" % k, set()).update(v)
-            fails, _ = one(g.ops, backend, compress, "focused %s/%s" % target)
+            fails = one(g.ops, backend, compress, "focused %s/%s" % target)
             if fails:
                 report(g.ops, backend, compress, fails, "focused %s/%s" % target)
                 stop = True
                 break
     # ---- (b) random whole-tree histories
-    nrand = 60 if big else 8
+    nrand = 70 if big else 8
     for j in range(nrand):
         if stop:
             break
         backend = "adf" if j % 2 == 0 else "hdf5"
         compress = [0, 1, -1][j % 3]
         g = Gen(ck.rng, big=big, allow_nonlast=(j % 2 == 0))
-        g.history(ck.rng.randint(25, 60) if big else ck.rng.randint(18, 32))
+        g.history(ck.rng.randint(30, 70) if big else ck.rng.randint(18, 32))
         dist["random"] += 1
         dist["max_groups"] = max(dist["max_groups"], len(g.ref.groups(nonempty_only=True)))
         for k, v in g.touched.items():
             covered.setdefault("%s/%s" % k, set()).update(v)
-        fails, _ = one(g.ops, backend, compress, "random")
+        fails = one(g.ops, backend, compress, "random")
         if fails:
             report(g.ops, backend, compress, fails, "random")
             stop = True
 
     ck.extra["covered_groups"] = {k: sorted(v) for k, v in sorted(covered.items())}
-    full = [k for k, v in covered.items() if {"create", "delete"} <= v and ({"overwrite"} <= v or {"rewrite"} <= v)]
+    full = [k for k, v in covered.items() if {"create", "delete"} <= v and ("overwrite" in v or "rewrite" in v)]
     ck.extra["groups_with_create_overwrite_delete"] = len(full)
     ck.extra["labels_deleted"] = sorted({k.split("/")[1] for k, v in covered.items() if "delete" in v})
+    ck.extra["parent_labels_covered"] = sorted({k.split("/")[0] for k in covered})
+    ck.extra["avoided_triggers"] = dict(AVOID)
     ck.extra["input_distribution"] = dist
 
     # ---- something broke without a failing input so far: widen the search (DESIGN.md 1.3)
-    if (corr_broken or broken) and not ck.violations:
+    if (corr_broken or broken) and not state["hard"]:
         found = False
-        for j in range(40 if not big else 120):
+        for j in range(120 if big else 40):
             backend = "adf" if j % 2 == 0 else "hdf5"
+            compress = [0, 1, -1][j % 3]
             g = Gen(ck.rng, allow_nonlast=(j % 2 == 0))
             g.history(ck.rng.randint(20, 45))
-            state["n"] += 1
-            fpath = os.path.join(work, "w%d_%s.cgns" % (state["n"], backend))
-            lines, exp, out, outcome = run_case(exe, g.ops, backend, fpath, [0, 1, -1][j % 3])
+            lines, exp, out, outcome = exec_case(g.ops, backend, compress, "wide")
             fails = evaluate(g.ops, lines, exp, out, outcome)
             ck.cov["evaluations"] += 1
-            if os.path.exists(fpath):
-                os.unlink(fpath)
             if fails and order_by_design(g.ops, fails) is None:
-                report(g.ops, backend, [0, 1, -1][j % 3], fails, "widened search")
+                report(g.ops, backend, compress, fails, "widened search")
                 found = True
                 break
         if not found:
-            ck.violation({"broken_obligations": broken, "broken_correspondence": corr_broken[:3],
+            hard({"broken_obligations": broken, "broken_correspondence": corr_broken[:3],
                           "note": "an obligation no longer checks or the model and the implementation print different lines, "
                                   "but every history explored still satisfies the three oracles"}, nofail=True)
-
-
-def focused_for_reserved(pl, label, name):
-    """a history that gives a sibling of kind `label` the reserved name under a parent labelled pl, and deletes it"""
-    import random
-    g = focused_prefix(pl)
-    if g is None:
-        return None
-    gen, path = g
-    entry = [k for k in gen.kinds_at(path, pl) if k[0] == label]
-    if not entry:
-        return None
-    mode, bound = entry[0][1], entry[0][2]
-    ops = list(gen.ops)
-    ops.append((mode, path, pl, label, "Keep1", 3 % (bound or 99)))
-    ops.append((mode, path, pl, label, name, 5 % (bound or 99)))
-    ops.append((mode, path, pl, label, "Keep2", 6 % (bound or 99)))
-    ops.append(("d", path, pl, name))
-    return ops
-
-
-def focused_for_noblock(pl):
-    if pl == "ParticleIterativeData_t":
-        return [("mk", "/B", "biter", None, [("BaseIterativeData", "BaseIterativeData_t")]),
-                ("w", "/B", "CGNSBase_t", "ParticleZone_t", "PZ0", 4),
-                ("mk", "/B/PZ0", "piter", None, [("ParticleIterativeData", "ParticleIterativeData_t")]),
-                ("w", "/B/PZ0/ParticleIterativeData", "ParticleIterativeData_t", D, "De1", 1),
-                ("w", "/B/PZ0/ParticleIterativeData", "ParticleIterativeData_t", D, "De2", 2),
-                ("d", "/B/PZ0/ParticleIterativeData", "ParticleIterativeData_t", "De1")]
-    return None
-
-
-CAT["ParticleIterativeData_t"] = [(D, "w", None), (U, "w", None)]      # reachable; cg_delete_node has no block for it (probe only)
-_PROBE_ONLY = {"ParticleIterativeData_t"}
-
-
-def focused_prefix(pl):
-    import random
-    g = focused_history(random.Random(1), (pl, CAT[pl][0][0])) if pl in CAT and pl not in _PROBE_ONLY else None
-    if g is None:
-        return None
-    # keep only the route: the ops up to the first op on the target parent
-    chain = route_to(pl)
-    n = 0
-    for step in chain:
-        n += 1
-    gen = Gen(random.Random(1))
-    path = "/B"
-    for op in g.ops[:n]:
-        gen.emit(op)
-    # the path of the target node = the deepest node with that label
-    cands = [p for p, nd in gen.ref.nodes.items() if nd["label"] == pl]
-    if not cands:
-        return None
-    return gen, sorted(cands, key=len)[-1]
 
 
 def replay(ck, path):
@@ -1019,12 +1137,7 @@ def replay(ck, path):
     exe = vlib.build_harness("c04_mod", ["c04_mod.c"])
     if "ops" not in r:
         print("replay names a broken obligation/correspondence, no input to run:", json.dumps(r)[:600]); return 1
-    ops = []
-    for o in r["ops"]:
-        if o[0] == "mk":
-            ops.append(("mk", o[1], o[2], o[3], [tuple(x) for x in o[4]]))
-        else:
-            ops.append(tuple(o))
+    ops = deser(r["ops"])
     lines, exp, out, outcome = run_case(exe, ops, r["backend"], os.path.join(ck.work, "replay.cgns"), r.get("compress", 0))
     fails = evaluate(ops, lines, exp, out, outcome)
     if fails and order_by_design(ops, fails) is not None:
